@@ -145,6 +145,10 @@ where
         // an empty state.
         if self.is_empty() {
             self.clear();
+        } else {
+            // The container shrank: the consumed prefix may now exceed
+            // half of what is left.
+            self.maybe_slide();
         }
 
         self.check_rep();
